@@ -43,7 +43,9 @@ ASSUMPTIONS = [
 ]
 K, N = 2, 3
 FILES = {"SDMF": ("SDMF", 31), "MDMF": ("MDMF", 31), "MDMF1": ("MDMF", 9)}
-SUBST_STATES = ["v2", "v1", "other", "other-genuinekey", "resigned", "resigned-newer", "badsig-newer", "v2prefix-v1blocks", "v1body-v2prefix", "missing"]
+SUBST_STATES = ["v2", "v1", "other", "other-genuinekey", "resigned", "resigned-newer", "badsig-newer", "v2prefix-v1blocks", "v1body-v2prefix", "missing",
+                # the SAME unsigned edit of a signed header field on several shares (same seqnum and root hash as the genuine v2):
+                "v2-datalen+1", "v2-iv-ff"]
 
 _PREP = {}
 
@@ -150,6 +152,12 @@ def build(prep, sh, spec):
         if fo["verification_key"][1] - fo["verification_key"][0] != f["verification_key"][1] - f["verification_key"][0] or ms.version_id(do2)[0] != ms.version_id(d2)[0]:
             return "skip"
         new = ms.put(do2, fo["verification_key"], d2[f["verification_key"][0]:f["verification_key"][1]])
+    elif op == "v2-datalen+1":
+        new = ms.setint(d2, f["datalen"], ms._int(d2, *f["datalen"]) + 1)
+    elif op == "v2-iv-ff":
+        if "salt" not in f or f["salt"] != (41, 57):
+            return "skip"           # MDMF has per-segment salts, no header IV
+        new = ms.put(d2, f["salt"], b"\xff" * 16)
     elif op == "resigned":
         new = ms.resign(d2, prep["attacker"])
     elif op == "resigned-newer":
